@@ -94,6 +94,7 @@ type c02Run struct {
 	after     map[string]string
 	writes    []string // paths with mutating events
 	writeSums map[string]string
+	completed map[string]bool // paths whose write call returned nil (seam layer)
 	repaired  []string
 	haveRes   bool
 	err       error
@@ -149,8 +150,15 @@ func (c *c02) judge(r *core.R, run c02Run) {
 		for _, pth := range run.repaired {
 			rep[filepath.Clean(pth)] = true
 		}
+		changed := map[string]bool{}
+		for _, d := range scen.DiffSnap(run.before, run.after) {
+			parts := strings.SplitN(d, " ", 2)
+			changed[filepath.Join(run.root, parts[1])] = true
+		}
 		for w := range wrote {
-			if !rep[w] {
+			// a write call that failed and left nothing behind need not be listed;
+			// one that completed, or that changed the file anyway, must be
+			if !rep[w] && (run.completed == nil || run.completed[w] || changed[w]) {
 				r.Violate(sig("written-but-not-listed"), "repair [%s]: %q was written but RepairedPaths=%v (err=%v); %s", run.layer, w, run.repaired, run.err, run.desc)
 			}
 		}
@@ -342,10 +350,14 @@ func (c *c02) runPar2(r *core.R, p c02Params, rng *rand.Rand) {
 		rerr = fmt.Errorf("panic: %s", pi.Msg)
 	}
 	sums := map[string]string{}
+	completed := map[string]bool{}
 	for _, w := range rec.Writes() {
 		sums[w.Path] = w.Sum
+		if w.Err == "" {
+			completed[filepath.Clean(w.Path)] = true
+		}
 	}
-	c.judge(r, c02Run{op: "repair", layer: "seam", protected: protected, root: root, before: before, after: scen.Snapshot(root), writes: pathsOf(rec.Writes()), writeSums: sums, repaired: res.RepairedPaths, haveRes: true, err: rerr, desc: desc})
+	c.judge(r, c02Run{op: "repair", layer: "seam", completed: completed, protected: protected, root: root, before: before, after: scen.Snapshot(root), writes: pathsOf(rec.Writes()), writeSums: sums, repaired: res.RepairedPaths, haveRes: true, err: rerr, desc: desc})
 	r.Count("io_calls_recorded", int64(len(rec.Events)))
 	outcome := "ok"
 	if rerr != nil {
@@ -377,10 +389,32 @@ func (c *c02) runPar1(r *core.R, p c02Params, rng *rand.Rand) {
 		return
 	}
 	root := e.root
-	addBystanders(rng, e.dir, "arch", p.Kind == "bystanders-matching")
+	addBystanders(rng, e.dir, e.base, p.Kind == "bystanders-matching")
 	protected := map[string][]byte{}
 	for i, f := range files {
 		protected[filepath.Clean(e.paths[i])] = f.Data
+	}
+	if p.Seed%3 == 0 && nf >= 2 {
+		// An archive from another client: some listed files are NOT saved in
+		// the volume set (they are bystanders as far as Repair is concerned).
+		var in []par1rw.InFile
+		nsaved := 0
+		for i, f := range files {
+			sv := rng.Intn(3) != 0 || (i == nf-1 && nsaved == 0)
+			if sv {
+				nsaved++
+			} else {
+				delete(protected, filepath.Clean(e.paths[i]))
+			}
+			in = append(in, par1rw.InFile{Name: f.Name, Data: f.Data, Saved: sv, ExtraStatus: []uint64{0, 2}[rng.Intn(2)]})
+		}
+		os.WriteFile(e.idx, par1rw.Build(in, 0, []byte("c"), 0x00010000), 0644)
+		for v := 1; v <= nv; v++ {
+			os.WriteFile(e.volPath(v), par1rw.Build(in, v, par1rw.Parity(in, v), 0x00010000), 0644)
+		}
+		r.Count("reference_written_par1_archives", 1)
+		c.par1DamageAndJudge(r, p, rng, e, root, files, nf, nv, protected)
+		return
 	}
 	before := scen.Snapshot(root)
 	rec := &mon.RecFS{Inner: par1.VerifDefaultFileIO{}}
@@ -394,11 +428,17 @@ func (c *c02) runPar1(r *core.R, p c02Params, rng *rand.Rand) {
 		return
 	}
 	for _, d := range scen.DiffSnap(before, scen.Snapshot(root)) {
-		if !strings.HasPrefix(d, "created set/arch.") {
+		if !strings.HasPrefix(d, "created set/"+e.base+".") {
 			r.Violate("create-changed-existing-file", "Create: %s", d)
 		}
 	}
 	r.Count("runs_create_seam", 1)
+	c.par1DamageAndJudge(r, p, rng, e, root, files, nf, nv, protected)
+}
+
+func (c *c02) par1DamageAndJudge(r *core.R, p c02Params, rng *rand.Rand, e *p1env, root string, files []scen.File, nf, nv int, protected map[string][]byte) {
+	var before map[string]string
+	var rec *mon.RecFS
 	// damage
 	kinds := []string{"delete", "flip", "truncate", "append", "replace"}
 	d := p1Damage{bad: map[int]string{}, lostVols: map[int]bool{}}
@@ -469,10 +509,14 @@ func (c *c02) runPar1(r *core.R, p c02Params, rng *rand.Rand) {
 		rerr = fmt.Errorf("panic: %s", pi.Msg)
 	}
 	sums := map[string]string{}
+	completed := map[string]bool{}
 	for _, w := range rec.Writes() {
 		sums[w.Path] = w.Sum
+		if w.Err == "" {
+			completed[filepath.Clean(w.Path)] = true
+		}
 	}
-	c.judge(r, c02Run{op: "repair", layer: "seam", protected: protected, root: root, before: before, after: scen.Snapshot(root), writes: pathsOf(rec.Writes()), writeSums: sums, repaired: res.RepairedPaths, haveRes: true, err: rerr, desc: desc})
+	c.judge(r, c02Run{op: "repair", layer: "seam", completed: completed, protected: protected, root: root, before: before, after: scen.Snapshot(root), writes: pathsOf(rec.Writes()), writeSums: sums, repaired: res.RepairedPaths, haveRes: true, err: rerr, desc: desc})
 	r.Count("io_calls_recorded", int64(len(rec.Events)))
 	outcome := "ok"
 	if rerr != nil {
